@@ -485,8 +485,10 @@ def c17(tier):
     return run.finish("behaviours of SF.tla (new/update/last/clone/drop on up to 3 slots) generated by TLC (simulation, plus all behaviours "
                       "to depth 5 on 2 slots), replayed on the real crate; non-trivial = behaviours with at least two last() answers to compare")
 
-def walk(rnd, n, lo, hi, maxstep):
-    """bounded random walk of integers (values in units of 1/unit), with occasional ties and jumps"""
+def walk(rnd, n, lo, hi, maxstep, grain=1):
+    """bounded random walk of integers (values in units of 1/unit), with occasional ties and jumps; every value and
+    hence every non-zero step is a multiple of `grain`, so magnitudes and step sizes both span at most hi/grain"""
+    lo, hi, maxstep = lo // grain, hi // grain, max(1, maxstep // grain)
     x = rnd.randint(lo, hi); out = []
     for _ in range(n):
         r = rnd.random()
@@ -497,7 +499,7 @@ def walk(rnd, n, lo, hi, maxstep):
         else:
             x += rnd.randint(-maxstep, maxstep)
         x = min(hi, max(lo, x))
-        out.append(x)
+        out.append(x * grain)
     return out
 
 def flat_after_volatile(rnd, n, lo, hi):
@@ -516,11 +518,11 @@ def c16(tier):
                     ("WelfordOnline", "window"), ("WelfordRolling", "rolling"), ("Min", "window"), ("HLNormalizer", "window"), ("Vsct", "window")):
         for n in ((5, 16) if tier == "quick" else (3, 16, 64)):
             cfg = {"k": k} if k == "WelfordRolling" else {"k": k, "n": n}
-            # values k/1000 with 10 <= k <= 10000 (three decades), steps of at least 1/1000
+            # values k/1000, 10 <= k <= 10000 in multiples of 10: non-zero magnitudes and non-zero steps both span three decades
             long_streams.append({"cfg": cfg, "unit": 1000, "mode": mode, "eps": [1, 1000000], "float": "f64",
-                                 "xs": walk(rnd, n64, 10, 10000, 400), "k": 25 if tier == "quick" else 500})
+                                 "xs": walk(rnd, n64, 10, 10000, 400, grain=10), "k": 25 if tier == "quick" else 500})
             long_streams.append({"cfg": cfg, "unit": 1000, "mode": mode, "eps": [1, 100], "float": "f32",
-                                 "xs": walk(rnd, n32, 10, 10000, 400), "k": 5})
+                                 "xs": walk(rnd, n32, 10, 10000, 400, grain=10), "k": 5})
     half = len(long_streams) // 2
     run.submit(p3_stream_job, "long-a", "C16", long_streams[:half])
     run.submit(p3_stream_job, "long-b", "C16", long_streams[half:])
